@@ -111,7 +111,7 @@ func OracleEntry(text []byte) (s string) {
 			return
 		}
 		r = query.OptimizeRegexp(r, RegexpFlags)
-		if r.Op == syntax.OpLiteral {
+		if r.Op == syntax.OpLiteral && r.Flags&syntax.FoldCase == 0 { // (?i)foo stays a regexp (fix 4f48ce5)
 			rq = "l" + gen.Hex([]byte(string(r.Rune)))
 			return
 		}
